@@ -129,4 +129,18 @@ Section ChainInv.
         * intros a s b' Ha Hb. apply Anc in Ha. destruct (OldA a Ha) as [sa Hsa].
           rewrite (get_block_add_old r r' b conf best a sa W V A Hsa) in Hb. eapply Q3; eauto.
   Qed.
+  (* accepted chains respect the window rule, so on them the two lookup paths agree with each other and with membership *)
+  Theorem accepted_paths_agree r : reachable g gp tag accepted r -> forall h t, stored r h -> U t ->
+    exists v, has_transaction r h (tx_id t) (tx_ref t) = Ok v /\ has_tx_indexed r h (tx_id t) = Ok v /\
+              (tx_ref t <= num_of h -> num_of h - tx_ref t < 100 -> recent_walk r (tx_id t) (tx_ref t) 102 h = Ok v) /\
+              (v = true <-> exists a, incl_on r h (tx_id t) a).
+  Proof.
+    intros R h t Sh Ut.
+    pose proof (reachable_wf _ _ _ _ _ Hg R) as W. pose proof (reachable_wf_body _ _ _ _ _ Hg R) as WB.
+    pose proof (reachable_wf_txi _ _ _ _ _ Hg R) as WT. pose proof (reachable_conf_inj _ _ _ _ _ Hg R) as CI.
+    apply (has_tx_paths_agree_lemma g gp r W WB WT CI Hgp h (tx_id t) (tx_ref t) Sh).
+    intros a Hi. destruct (incl_tx_in r _ _ _ WB Hi) as [t' [Ht' Eid]]. destruct Hi as [s [Ha _]].
+    destruct (accepted_chain_ok r R h Sh) as [P1 _]. destruct (P1 a t' Ha Ht') as [Ut' [_ [Hr _]]].
+    rewrite (U_inj t t' Ut Ut' (eq_sym Eid)). exact Hr.
+  Qed.
 End ChainInv.
